@@ -1795,9 +1795,16 @@ int ov_pcm_seek(OggVorbis_File *vf,ogg_int64_t pos){
     /* note that halfrate could be set differently in each link, but
        vorbisfile encoforces all links are set or unset */
     int hs=vorbis_synthesis_halfrate_p(vf->vi);
-    while(vf->pcm_offset<((pos>>hs)<<hs)){
+    while(1){
+      /* whole output samples still in front of pos.  (Comparing
+         against pos rounded down to even is not the same thing: at
+         half rate the sample grid of a link that follows an
+         odd-length link sits on odd positions, and the loop would
+         never get there) */
       ogg_int64_t target=(pos-vf->pcm_offset)>>hs;
       long samples=vorbis_synthesis_pcmout(&vf->vd,NULL);
+
+      if(target<=0)break;
 
       if(samples>target)samples=target;
       vorbis_synthesis_read(&vf->vd,samples);
